@@ -193,6 +193,25 @@ def run_case(case):
                 tr = J(gf.simulate)(jax.random.key(seed), aj)
                 obs = _obs_trace(tr, atys, rty, universe, stored)
                 fails += check_trace(obs, tr, kind)
+                if case.get("vbatch") and not case.get("py"):
+                    # C23: slice i of a jax.vmap over keys / arguments equals the unbatched call on input i
+                    import jax.numpy as jnp
+
+                    def sl(t, i):
+                        o = _obs_trace(jax.tree.map(lambda v: v[i], t), atys, rty, universe, stored)
+                        return (o["choices"], o["score"], o["ret"], o["args"])
+
+                    base = (obs["choices"], obs["score"], obs["ret"], obs["args"])
+                    k2 = jax.random.key(seed ^ 0x5BD1)
+                    o2 = _obs_trace(gf.simulate(k2, aj), atys, rty, universe, stored)
+                    base2 = (o2["choices"], o2["score"], o2["ret"], o2["args"])
+                    bk = jax.vmap(lambda k: gf.simulate(k, aj))(jnp.stack([jax.random.key(seed), k2]))
+                    if sl(bk, 0) != base or sl(bk, 1) != base2:
+                        fails.append({"prop": "C23", "why": "a slice of jax.vmap(simulate) over keys differs from the unbatched call"})
+                    if aj:
+                        ba = jax.vmap(lambda a: gf.simulate(jax.random.key(seed), a))(jax.tree.map(lambda v: jnp.stack([v, v]), aj))
+                        if sl(ba, 0) != base or sl(ba, 1) != base:
+                            fails.append({"prop": "C23", "why": "a slice of jax.vmap(simulate) over arguments differs from the unbatched call"})
                 cur, cur_obs, last_bwd, last_edit = tr, obs, None, None
                 results.append({"ok": True, "tr": obs})
             elif kind == "gen":
@@ -465,6 +484,14 @@ def run_case(case):
                     o2 = _obs_trace(tr2, atys, rty, universe, stored)
                     if (obs["choices"], obs["score"], obs["ret"], w) != (o2["choices"], o2["score"], o2["ret"], gfi._to_int(w2)):
                         fails.append({"prop": "C38", "why": "EmptyRequest with changed arguments != Update(empty)"})
+                if case.get("derived") and stored is None:
+                    # C38: Trace.edit(key, request, argdiffs) is request.edit(key, trace, argdiffs)
+                    tr3, w3, _, _ = cur.edit(jax.random.key(seed), EmptyRequest(), ad)
+                    o3 = _obs_trace(tr3, atys, rty, universe, stored)
+                    if (o3["choices"], o3["score"], o3["ret"], o3["args"], gfi._to_int(w3)) != (
+                            obs["choices"], obs["score"], obs["ret"], obs["args"], w):
+                        fails.append({"prop": "C38", "why": "Trace.edit(key, EmptyRequest(), argdiffs) differs from request.edit(key, trace, argdiffs)",
+                                      "derived": [o3["score"], o3["ret"], gfi._to_int(w3)], "primitive": [obs["score"], obs["ret"], w]})
                 cur, cur_obs, last_bwd, last_edit = tr, obs, bwd, None
                 results.append({"ok": True, "tr": obs, "w": w})
             elif kind == "subtrace":
